@@ -1,10 +1,11 @@
 """Translator: which context fields (Wtp.__slots__) are written where
 -> coq/Gen/GenFields.v.  Python-ast walk of the package sources; fail-closed on
 setattr/vars()/__dict__ access to the context."""
+import os
 import ast
 from pathlib import Path
 
-SRC = Path("/repo/src/wikitextprocessor")
+SRC = Path(os.environ.get("VERIF_REPO", "/repo")) / "src/wikitextprocessor"
 FILES = ["core.py", "parser.py", "luaexec.py", "parserfns.py", "node_expand.py", "dumpparser.py", "wikidata.py", "interwiki.py"]
 CTX_NAMES = {"self", "ctx", "wtp"}
 MUTATORS = {"append", "pop", "clear", "update", "extend", "insert", "remove", "add", "discard", "setdefault", "popitem",
